@@ -43,7 +43,7 @@ def run(ctx):
     ]
     Q = not ctx.thorough
     mc = {
-        "mc_refine": dict(module="Blake2Buf_MC", cfg="Blake2Buf_Refine_K0Q.cfg" if Q else "Blake2Buf_Refine_K0.cfg", workers=ctx.pick(3, 6), coverage=ctx.thorough,
+        "mc_refine": dict(module="Blake2Buf_MC", cfg="Blake2Buf_Refine_K0MQ.cfg" if Q else "Blake2Buf_Refine_K0.cfg", workers=ctx.pick(3, 6), coverage=ctx.thorough,
                           note="refinement Blake2Buf => Blake2Hash incl. Marshal/Unmarshal transparency, unkeyed, B=4"),
         "mc_corrupt1": dict(module="Blake2Buf_MC", cfg="Blake2Buf_Corrupt1Q.cfg" if Q else "Blake2Buf_Corrupt1.cfg", workers=ctx.pick(3, 6),
                             note="UnmarshalBinary with range checks on corrupted size/offset bytes: TypeOK preserved, no call undefined"),
@@ -63,9 +63,12 @@ def run(ctx):
                                        note="Keccak UnmarshalBinary without the n <= rate test: expected counterexample (non-vacuity)"),
         }
     gens = {
-        "gen_b": dict(module="Blake2Buf_GenAll", cfg_text=genall_cfg(ctx.pick(4, 5), "AllOps", "WAll", 2), workers=ctx.pick(2, 4)),
-        "gen_k": dict(module="C07Keccak_Gen", cfg_text=kgen_cfg(ctx.pick(4, 5), True), workers=ctx.pick(1, 2)),
+        "gen_b": dict(module="Blake2Buf_GenAll", cfg_text=genall_cfg(4, "AllOps", "WAll", 2), workers=2),
+        "gen_k": dict(module="C07Keccak_Gen", cfg_text=kgen_cfg(ctx.pick(4, 5), True), workers=ctx.pick(1, 3)),
     }
+    if ctx.thorough:     # unkeyed: one call deeper; keyed hashes refuse to marshal, depth 3 with the full write alphabet suffices
+        gens["gen_b"] = dict(module="Blake2Buf_GenAll", cfg_text=genall_cfg(5, "AllOps", "WUnkeyed", 2), workers=5)
+        gens["gen_bk"] = dict(module="Blake2Buf_GenAll", cfg_text=genall_cfg(3, "AllOps", "WKeyed", 1), workers=1)
     if ctx.replay:
         d = json.load(open(ctx.replay))["violation"]["detail"]
         res = par_tlc(ctx, {"fields1": mc["fields1"]})
@@ -80,7 +83,8 @@ def run(ctx):
     jobs = {}
     jobs.update(mc); jobs.update(doc); jobs.update(gens)
     res = par_tlc(ctx, jobs, timeout=2400)
-    judge_mc(ctx, {k: res[k] for k in mc})
+    # the corruption disjunct of Next (UnmarshalCorrupt over empty value sets) is switched off in the refinement config
+    judge_mc(ctx, {k: res[k] for k in mc}, disabled={"mc_refine": ["Next"]})
     for k in doc:
         r = res[k]
         if r.ok:
